@@ -987,6 +987,45 @@ def mon_guard(t):
     return out
 
 
+def mon_window(t):
+    """For the directed schedules that stop a caller or the worker at a schedule point *inside* a call / command: a sweep must
+    not remove a key whose current expiry has not passed.  The cause is classified: the sweep fell into the window
+    between the two halves of a put_or_update, or it followed a stale duplicate index entry left by a put_or_update that
+    fell between the worker's store insert and its index registration."""
+    out = []
+    at_point = {}       # tid -> (label, call)
+    for i, r in enumerate(t.recs):
+        if r["skipped"]:
+            continue
+        p = r["ev"].split()
+        if p[0] == "callp" and r["ret"] and r["ret"][0] == 7:
+            at_point[p[1]] = (r["ret"][1], p[2:])
+        if p[0] == "run" and p[1] in at_point and (not r["ret"] or r["ret"][0] != 7):
+            del at_point[p[1]]
+        if p[0] != "sweep":
+            continue
+        now = t.now_before[i]
+        sb, sa = t.store_before(i), t.store_after(i)
+        for k, ent in sb.items():
+            if k in sa:
+                continue
+            if ent[3] != -1 and ent[3] < now:
+                continue          # due: fine
+            in_upsert = [tid for tid, (label, call) in at_point.items() if label == "upsert.after_store_update" and call[0] == "upsert" and int(call[1]) == k]
+            dup = [e for e in t.before[i]["ticker"] if e[1] == ent[2]]
+            if in_upsert:
+                sig = "sweep-inside-upsert-window"
+                why = "the sweep fell between store.update and the index update of a put_or_update that extends the time-to-live"
+            elif len(dup) > 1:
+                sig = "stale-duplicate-index-entry"
+                why = "the key id had two index entries (%s): a put_or_update fell between the worker's store insert and its index registration" % dup
+            else:
+                sig = "sweep-removed-live-key"
+                why = "no cause identified"
+            out.append(fail(t, i, sig, "sweep at clock %d removed key %d whose current expiry %s has not passed: %s" % (now, k, ent[3], why), no_shrink=True))
+    return out
+
+
 def run_monitor(pid, schedules, impl):
     fails = []
     for s in schedules:
